@@ -183,6 +183,97 @@ def check(an: Analysis) -> None:
                     if isinstance(root, ast.Attribute) and is_name(root.value, "self"):
                         ob.fail(f, n, f"a call stores `{stmt_text(t, 40)}` on the wrapper: what one call resolved (e.g. the running event loop) is reused by later calls made from another loop / context")
 
+    # C18.2 continued: which loop / executor, and the dispatch of the two entry points - evaluated per situation
+    from ..kinds import NOVALUE as _NVc
+    from ..kinds import Abs as _AbsC
+    from ..kinds import Scenario as _ScnC
+    from ..kinds import eval_expr as _evalC
+    from ..kinds import reduce_ifexp as _reduceC
+
+    A_LOOP = _AbsC("AbstractEventLoop", "object", tag="configured loop")
+    A_RUNNING = _AbsC("AbstractEventLoop", "object", tag="running loop")
+    for name in (f"{EW}.__call__", f"{EW}.__method_call__"):
+        f = prog.fn(name)
+        for c in [c for c in f.own_nodes() if isinstance(c, ast.Call) and an.callee(f, c) == "asyncio.AbstractEventLoop.run_in_executor"]:
+            recv = c.func.value  # type: ignore[union-attr]
+            for configured in (True, False):
+
+                def env_loop(e: ast.AST, configured=configured):
+                    if dotted(e) == "self._loop":
+                        return A_LOOP if configured else None
+                    if isinstance(e, ast.Call) and an.callee(f, e) == "asyncio.get_running_loop":
+                        return A_RUNNING
+                    return _NVc
+
+                got = _evalC(Deps(prog, f).inline(recv), env_loop)
+                want = A_LOOP if configured else A_RUNNING
+                if got is not want:
+                    ob.fail(f, c, f"with {'a' if configured else 'no'} loop configured the call is submitted to {getattr(got, 'tag', got)!r} instead of the {'configured' if configured else 'running'} loop")
+    asyn = prog.fn("helpers.asynchrony.asynchronous")
+    awrap = prog.fn("helpers.asynchrony.asynchronous.wrap")
+    ctor_calls = [c for c in awrap.own_nodes() if isinstance(c, ast.Call) and an.callee(awrap, c) == prog.cls(EW).qualname]
+    if len(ctor_calls) != 1:
+        ob.fail(awrap, None, f"asynchronous() builds {len(ctor_calls)} executor wrappers (expected one)")
+    for c in ctor_calls:
+        ob.inst(awrap, c)
+        ex = next((k.value for k in c.keywords if k.arg == "executor"), None)
+        lp_ = next((k.value for k in c.keywords if k.arg == "loop"), None)
+        dwr = Deps(prog, awrap)
+        if not (c.args and is_name(c.args[0], awrap.param_names()[0])):
+            ob.fail(awrap, c, "the executor wrapper does not receive the decorated function")
+        if lp_ is None or dwr.origins(lp_) != {"param:loop"}:
+            ob.fail(awrap, c, "the configured loop is not passed on to the executor wrapper")
+        A_EXEC = _AbsC("Executor", "object", tag="given executor")
+        A_MISSING = _AbsC("Missing", "object", truthy=False, tag="MISSING")
+        for given in (True, False):
+
+            def env_ex(e: ast.AST, given=given):
+                if is_name(e, "executor"):
+                    return A_EXEC if given else A_MISSING
+                if (dotted(e) or "").rsplit(".", 1)[-1] == "MISSING":
+                    return A_MISSING
+                return _NVc
+
+            got = _evalC(unwrap(_reduceC(unwrap(dwr.inline(ex)), env_ex)), env_ex) if ex is not None else _NVc
+            want_ex = A_EXEC if given else None
+            if got is not want_ex:
+                ob.fail(awrap, c, f"with {'an' if given else 'no'} executor given the wrapper gets {getattr(got, 'tag', got)!r} instead of {'that executor' if given else 'None (the loop default executor)'}")
+    # decoration-time guards must let the legitimate input through (a plain function for asynchronous)
+    gaw = an.cfg(awrap)
+    for asrt in [a_ for a_ in awrap.own_nodes() if isinstance(a_, ast.Assert)]:
+        ob.inst(awrap, asrt, "decoration-time assert")
+
+        def env_plain(e: ast.AST):
+            if isinstance(e, ast.Call) and an.callee(awrap, e) == "asyncio.iscoroutinefunction":
+                return False
+            return _NVc
+
+        if _evalC(asrt.test, env_plain) is False:
+            ob.fail(awrap, asrt, "the decoration-time assertion rejects a plain (non coroutine) function: asynchronous() cannot wrap anything in debug mode")
+    # wrap_async: coroutine functions are returned as they are, plain ones get the async wrapper
+    wa_outer = prog.fn("helpers.asynchrony.wrap_async")
+    gwa = an.cfg(wa_outer)
+    dwa = Deps(prog, wa_outer)
+    for is_coro in (True, False):
+
+        def env_wa(e: ast.AST, is_coro=is_coro):
+            if isinstance(e, ast.Call) and an.callee(wa_outer, e) == "asyncio.iscoroutinefunction":
+                return is_coro
+            return _NVc
+
+        scw = _ScnC(gwa, dwa, env_wa)
+        live = [n for n in gwa.nodes if n.kind == "return" and n.id in scw.reach]
+        ob.inst(wa_outer, None, f"wrap_async of a {'coroutine' if is_coro else 'plain'} function: {len(live)} return(s)")
+        if not live:
+            ob.fail(wa_outer, None, f"wrap_async returns nothing for a {'coroutine' if is_coro else 'plain'} function")
+        for r in live:
+            v = unwrap(r.ast.value)  # type: ignore[union-attr]
+            oo = dwa.origins(v) if v is not None else frozenset()
+            if is_coro and oo != {f"param:{wa_outer.param_names()[0]}"}:
+                ob.fail(wa_outer, r.ast, "wrap_async does not return a coroutine function as it is")
+            if not is_coro and not any(o.startswith("def:") for o in oo):
+                ob.fail(wa_outer, r.ast, "wrap_async returns a plain function without wrapping it: the result is not awaitable")
+
     # ------------------------------------------------------------------ C18.3 traced preserves the exception
     ob = an.ob("C18.3", "K4", "traced: the handler around the call catches BaseException, records ResultTrace.of(exc) and re-raises the same object", [f.short for f in traced_fns])
     RT = prog.cls("helpers.tracing.ResultTrace").qualname
@@ -324,7 +415,7 @@ def check(an: Analysis) -> None:
         fparam = [a.arg for a in init.node.args.posonlyargs + init.node.args.args][1]
         g = an.cfg(init)
         ms = [n for n in g.nodes if n.kind == "call" and an.callee(init, n.ast) in MIMICS]
-        good = [n for n in ms if n.ast.args and is_name(n.ast.args[0], fparam) and is_name(next((k.value for k in n.ast.keywords if k.arg == "within"), None), "self")]  # type: ignore[union-attr]
+        good = [n for n in ms if n.ast.args and is_name(n.ast.args[0], fparam) and is_name(_within(n.ast), "self")]  # type: ignore[union-attr]
         sites += 1
         ob.inst(init, good[0].ast if good else None, f"wrapper class {ci.name}")
         if not good:
@@ -335,15 +426,16 @@ def check(an: Analysis) -> None:
                 ob.fail(init, good[0].ast, "a path through __init__ skips the mimic call", CFG.show_path(w))
         get = ci.method("__get__")
         if get is not None:
+            dget_ = Deps(prog, get)
             for r in [r for r in get.own_nodes() if isinstance(r, ast.Return)]:
-                v = unwrap(r.value)
+                v = unwrap(dget_.inline(r.value)) if r.value is not None else None
                 if is_name(v, "self"):
                     continue
                 sites += 1
                 ob.inst(get, r, "bound method form")
                 ok = isinstance(v, ast.Call) and an.callee(get, v) in MIMICS and v.args and dotted(v.args[0]) == "self._function"
                 if ok:
-                    within_ = next((k.value for k in v.keywords if k.arg == "within"), None)
+                    within_ = _within(v)
                     ok = isinstance(within_, ast.Call) and an.callee(get, within_) == "functools.partial" and len(within_.args) == 2 and dotted(within_.args[0]) == "self.__method_call__" and is_name(within_.args[1], get.param_names()[1])
                 if not ok:
                     ob.fail(get, r, "the bound-method form is not mimic(self._function, within=partial(self.__method_call__, instance))")
@@ -360,7 +452,7 @@ def check(an: Analysis) -> None:
         p = next(p for p in fparams if any(d.origins(unwrap(c.func)) == {f"param:{p}"} for c in calls_param))
         sites += 1
         deco_ok = any(isinstance(dd, ast.Call) and an.callee(outer, dd) in MIMICS and dd.args and is_name(dd.args[0], p) for dd in fi.node.decorator_list)
-        mim = [c for c in mimic_calls(an, outer) if c.args and is_name(c.args[0], p) and is_name(next((k.value for k in c.keywords if k.arg == "within"), None), fi.name)]
+        mim = [c for c in mimic_calls(an, outer) if c.args and is_name(c.args[0], p) and is_name(_within(c), fi.name)]
         ob.inst(fi, mim[0] if mim else (fi.node.decorator_list[0] if fi.node.decorator_list else None), f"nested wrapper {fi.short}")
         if not (deco_ok or mim):
             ob.fail(fi, None, f"nested wrapper `{fi.name}` of {outer.short} is returned without mimicking `{p}`")
@@ -498,8 +590,9 @@ def check(an: Analysis) -> None:
                 w = g.search([wr[0]], lambda n, u=u: n is u, skip_edge=normal_only)
                 if w is not None:
                     ob.fail(f, wr[0].ast, "__wrapped__ is set before the wrapped function's __dict__ is copied: a __wrapped__ already present there (stacked helpers, functools.wraps) overwrites the reference to the original", CFG.show_path(w))
+        dmf = Deps(prog, f)
         for r in [r for r in f.own_nodes() if isinstance(r, ast.Return)]:
-            if not is_name(unwrap(r.value), tgt):
+            if not is_name(unwrap(dmf.inline(r.value)) if r.value is not None else None, tgt):
                 ob.fail(f, r, "the mimic does not return the wrapper it was given")
         # C18.7: the wrapper's own attributes survive the copy of the wrapped callable's __dict__
         for n in f.own_nodes():
@@ -533,3 +626,9 @@ def _ancestors(n: ast.AST):
     from ..loader import ancestors
 
     return ancestors(n)
+
+
+def _within(call: ast.Call) -> ast.AST | None:
+    """The wrapper handed to mimic_function / _mimic_async: `within=` keyword or second positional argument."""
+    kw = next((k.value for k in call.keywords if k.arg == "within"), None)
+    return kw if kw is not None else (call.args[1] if len(call.args) > 1 else None)
